@@ -18,7 +18,7 @@ ANCHORS = ["runlengtharray.py::RunLengthArray._get_position", "runlengtharray.py
            "runlengtharray.py::RunLengthArray.__getitem__", "mixin.py::NPSIndexable.__getitem__"]
 KINDS = ["int", "list", "array", "boolarray", "boollist", "rlmask", "cmpmask", "slice", "windows"]
 FLOOR_TAGS = ["k:" + k for k in KINDS] + ["step:+1", "step:+k", "step:-1", "step:-k", "bounds:oob", "bounds:in", "result:empty", "mask:allfalse", "mask:alltrue", "int:negative",
-                                          "kind:b", "kind:i", "kind:u", "kind:f", "index:readonly", "k:virtual", "virtual:2**53", "virtual:2**31", "receiver:subclass", "step:huge", "windows:narrow-dtype", "windows:len-exceeds-dtype", "index:2d", "rlmask:astype", "rlmask:invert"]
+                                          "kind:b", "kind:i", "kind:u", "kind:f", "index:readonly", "k:virtual", "virtual:2**53", "virtual:2**31", "receiver:subclass", "step:huge", "windows:narrow-dtype", "windows:len-exceeds-dtype", "index:2d", "rlmask:astype", "rlmask:invert", "rlmask:used-before"]
 FLOOR_MONITORS = ["c15:compare", "c15:canonical", "inv:rla", "c15:arguments-unchanged"]
 FP_STRICT = True       # a floating-point event inside the library that the dense computation does not have is a violation (shard.FpMonitor)
 N_RANDOM = {"quick": 24000, "thorough": 300000}
@@ -201,6 +201,14 @@ def run(case):
         if m.all():
             tags.append("mask:alltrue")
         exp = v[m]
+        if case.get("prior") and L:
+            # the same mask object has answered for another array first -- same length, same number of runs, other run boundaries (the mirror image)
+            tags.append("rlmask:used-before")
+            CTX.tick("c15:mask-used-before")
+            v0 = v[::-1].copy()
+            p0 = attempt(lambda: rl.decode(RLA.from_array(v0.copy())[mask]))
+            if not p0.ok or not same_array(np.asarray(p0.value), v0[m], dtype=True):
+                return violated("rla[mask] on encoded %s %s with run-length mask %s gives %s, numpy gives %s" % (dt, short(v0, 120), short(m, 100), short(p0.value, 120) if p0.ok else repr(p0), short(v0[m], 120)), tags)
         a = attempt(lambda: r[mask])
         dec = rl.decode
         want = "rla"
@@ -328,6 +336,8 @@ def gen_case(rng, tier, kind=None, dtype=None):
         if kind == "rlmask" and rng.random() < 0.5:
             c["via"] = rng.choice(["astype", "astype", "invert", "and", "slice"])      # masks that are themselves results of run-length operations
             c["codetype"] = rng.choice(["int64", "uint8", "int8", "float64"])
+        if kind == "rlmask" and rng.random() < 0.4:
+            c["prior"] = True
         return c
     if kind == "cmpmask":
         if np.dtype(dtype).kind == "b":
